@@ -10,6 +10,7 @@ Everything is recorded in /verif/seeded/<name>/{patch.diff,demo.py,notes.md,meta
 import json
 import os
 import shutil
+import signal
 import subprocess
 import sys
 import tempfile
@@ -19,7 +20,10 @@ PY = "/venv/bin/python"
 
 
 def sh(cmd, cwd=None, env=None, timeout=3000):
-    p = subprocess.run(cmd, cwd=cwd, env=env, shell=isinstance(cmd, str), capture_output=True, text=True, timeout=timeout)
+    # a background job inherits SIGINT ignored, and Python then never raises KeyboardInterrupt: some demonstrations
+    # deliver a real Ctrl-C to themselves
+    p = subprocess.run(cmd, cwd=cwd, env=env, shell=isinstance(cmd, str), capture_output=True, text=True, timeout=timeout,
+                       preexec_fn=lambda: signal.signal(signal.SIGINT, signal.SIG_DFL))
     return p.returncode, (p.stdout + p.stderr)
 
 
